@@ -124,6 +124,11 @@ func (e *Encoder) ComputeParityData() error {
 		dataShards = append(dataShards, e.recoverySetInfos[fileID].dataShards...)
 	}
 
+	if len(dataShards) == 0 {
+		// All files are empty.
+		return errors.New("no shard data")
+	}
+
 	coder, err := rsec16.NewCoderPAR2Vandermonde(len(dataShards), e.parityShardCount, e.numGoroutines)
 	if err != nil {
 		return err
